@@ -3280,8 +3280,8 @@ class C17(Oracle):
 
         rr = random.Random(c['seed'])
         s, a, s2 = corr_core._reward_triples(rr, rr.randrange(4))
-        if not in_grid(s2.grid, s2.agent.position):
-            return out
+        if not in_grid(s2.grid, s2.agent.position) or not in_grid(s.grid, s.agent.position) or s.grid.shape != s2.grid.shape:
+            return out  # not a (state, action, next state) of one world: the components promise nothing
         for name, kw, extra in [('reach_exit', {'reward_on': 3.0, 'reward_off': -1.0}, {'colour': 'blue'}), ('living_reward', {'reward': -0.25}, {'shape': (3, 3)}), ('living_reward', {'reward': 0.0}, {}), ('reach_exit', {'reward_on': 0.0, 'reward_off': 2.0}, {}), ('bump_into_wall', {'reward': 0}, {}), ('bump_into_wall', {'reward': -2.0}, {}), ('pickndrop', {'object_type': Key, 'reward_pick': 1.5}, {'reward_drip': 9.0})]:
             try:
                 f = rf.factory(name, **kw, **extra)
